@@ -14,6 +14,16 @@ check('C17', 'compile-time witness matrix (static_assert) decided by clang++ and
       'Trusted: the compilers\' constant evaluators and record layout for x86-64; the oracle in sa/drivers/oracle.hpp transcribes the property statement.',
       'DESIGN.md section 4, C17')
 
+check('C20', 'effect analysis over the resolved call graph of the instantiated program (public const API cone: no mutable/static state, no const-shedding cast, no store or mutable escape through pointer members)',
+      'Decides C20 in full for the analysed matrix: every function reachable from a public const member of every container and iterator only loads from the shared object; everything else is C++ const checking. Static proof of race-freedom of the const API, independent of schedules.',
+      'Assumes element/comparator/allocator const operations are race-free and libstdc++ const algorithms do not write through const iterators; malloc/free thread-safe.',
+      'DESIGN.md section 4, C20')
+
+check('C05', 'call-graph reachability (no allocation request reachable from any FixedCapacityVector member) + guard/encoding shape rules for SmallVector',
+      'FixedCapacityVector clause decided in full (NOALLOC on the complete call graph of every instantiation). SmallVector/SmallSet: structural clauses only, see evidence.',
+      'Does not decide capacity()==N as a run-time relation; see DESIGN.md C05.',
+      'DESIGN.md section 4, C05')
+
 PENDING = ['C01','C02','C03','C04','C05','C06','C07','C08','C09','C10','C11','C13','C14','C15','C16','C18','C19','C20']
 for p in PENDING:
     if p not in CHECKS:
